@@ -203,6 +203,13 @@ def byte_count_operand(body, x, buf_field, written):
         f = last_named_field(p)
         ok = f is not None and f in written and f != buf_field
     elif l is not None:
+        for _ in range(4):          # through plain copies (a named local, the component of a matched tuple)
+            d = [s for bb, i, s in body.stmts() if s["k"] == "assign" and s["place"]["l"] == l and not s["place"]["p"]]
+            if len(d) == 1 and d[0]["rv"]["k"] == "use" and op_local(d[0]["rv"]["op"]) is not None and not (op_place(d[0]["rv"]["op"]) or {}).get("p") \
+                    and not any(t2["dest"]["l"] == l for _, t2 in body.calls() if t2.get("dest") is not None):
+                l = op_local(d[0]["rv"]["op"])
+                continue
+            break
         for bb, i, s in body.stmts():
             if s["k"] == "assign" and s["place"]["l"] == l and not s["place"]["p"] and s["rv"]["k"] == "use":
                 p2 = op_place(s["rv"]["op"])
